@@ -360,6 +360,8 @@ enum Domain {
 	Cycle,
 	Unreachable,
 	BadDiff,
+	/// every path is consistent in itself, but two root→version paths give different mappings
+	Ambiguous,
 	Outside,
 }
 
@@ -372,6 +374,7 @@ impl Domain {
 			Domain::Cycle => "cycle",
 			Domain::Unreachable => "unreachable",
 			Domain::BadDiff => "bad-diff",
+			Domain::Ambiguous => "ambiguous-paths",
 			Domain::Outside => "outside-domain",
 		}
 	}
@@ -393,6 +396,8 @@ struct Sem {
 	nodes: BTreeMap<String, NodeExp>,
 	root: Option<(String, usize)>,
 	cycle_through_root: bool,
+	/// two roots: do two of the root files name versions that share a lookup key (`a~b.tiny` next to `a.tiny`)?
+	colliding_roots: bool,
 }
 
 fn valid_version(name: &str) -> bool {
@@ -452,6 +457,8 @@ fn judge(t: &Texts, files: &[FileSpec]) -> Sem {
 		names.insert(c.clone());
 	}
 	let mut key_owner: BTreeMap<String, String> = BTreeMap::new();
+	// two distinct versions share a lookup key
+	let mut collision = false;
 	for n in &names {
 		if !valid_version(n) {
 			outside = true;
@@ -460,24 +467,32 @@ fn judge(t: &Texts, files: &[FileSpec]) -> Sem {
 		for (k, _) in keys_of(n) {
 			if let Some(o) = key_owner.insert(k, n.clone()) {
 				if &o != n {
-					outside = true; // two distinct versions share a lookup key
+					collision = true;
 				}
 			}
 		}
 	}
-	let mut sem = Sem { domain: Domain::Outside, nodes: BTreeMap::new(), root: None, cycle_through_root: false };
+	let mut sem = Sem { domain: Domain::Outside, nodes: BTreeMap::new(), root: None, cycle_through_root: false, colliding_roots: false };
 	for n in &names {
 		sem.nodes.insert(n.clone(), NodeExp { ok: vec![], err_ok: true, keys: if valid_version(n) { keys_of(n) } else { vec![] } });
 	}
 	if outside {
 		return sem;
 	}
-	if roots.is_empty() {
-		sem.domain = Domain::NoRoot;
+	if roots.len() > 1 {
+		// Two root files are two roots whatever their names are: also when the names share a lookup key
+		// (`a~b.tiny` next to `a.tiny`, `b.tiny`, `a~c.tiny`, `c~b.tiny`, `b~a.tiny`) no reading of the
+		// directory makes one of the two files *the* root.
+		sem.domain = Domain::TwoRoots;
+		sem.colliding_roots = roots.iter().enumerate().any(|(i, (a, _))| roots.iter().skip(i + 1).any(|(b, _)| keys_of(a).iter().any(|(k, _)| keys_of(b).iter().any(|(l, _)| k == l))));
 		return sem;
 	}
-	if roots.len() > 1 {
-		sem.domain = Domain::TwoRoots;
+	if collision {
+		// "reachable under its name / either half" cannot hold for both versions: outside the statement
+		return sem;
+	}
+	if roots.is_empty() {
+		sem.domain = Domain::NoRoot;
 		return sem;
 	}
 	let (root, root_state) = roots[0].clone();
@@ -516,6 +531,7 @@ fn judge(t: &Texts, files: &[FileSpec]) -> Sem {
 
 	// fold along every simple root→v path that stays outside the cyclic part
 	let mut all_plain = true;
+	let mut any_refusal = false;
 	for v in &names {
 		if !reach.contains(v) || cyc.contains(v) {
 			continue;
@@ -556,11 +572,16 @@ fn judge(t: &Texts, files: &[FileSpec]) -> Sem {
 		if refusals > 0 || e.ok.len() != 1 {
 			all_plain = false;
 		}
+		if refusals > 0 || e.ok.is_empty() {
+			any_refusal = true;
+		}
 	}
 	sem.domain = if !cyc.is_empty() {
 		Domain::Cycle
 	} else if !unreachable.is_empty() {
 		Domain::Unreachable
+	} else if !all_plain && !any_refusal {
+		Domain::Ambiguous
 	} else if !all_plain {
 		Domain::BadDiff
 	} else {
@@ -944,6 +965,10 @@ fn check_answer(run: &Run, st: &mut Stats, sem: &Sem, node: &str, how: &str, a: 
 		Ok(Ok(m)) => {
 			if e.ok.contains(m) {
 				st.outcome("answers-equal-to-oracle");
+				if sem.domain == Domain::Ambiguous && e.ok.len() > 1 {
+					st.outcome(&format!("ambiguous:answered-with-the-fold-of-one-path:{}", e.ok.iter().position(|x| x == m).unwrap_or(0)));
+					st.outcome("ambiguous:answered-with-the-fold-of-one-path");
+				}
 				if let Some((_, rs)) = &sem.root {
 					if sem.domain == Domain::WellFormed && &run.t.ext[*rs] != m {
 						st.outcome("answers-different-from-root");
@@ -987,6 +1012,9 @@ fn run_group(run: &Run, g: &Group, perms: &mut BTreeSet<(usize, Vec<usize>)>, na
 		st.eval();
 		st.outcome_n("real-code-calls", obs.calls);
 		st.outcome(&format!("directories:{}", sem.domain.name()));
+		if g.label.contains("/pair:") {
+			st.outcome(&format!("pairs:directories:{}", sem.domain.name()));
+		}
 		let intended: Vec<String> = order.iter().map(|&i| g.files[i].name.clone()).collect();
 		if obs.listing != intended {
 			st.outcome("listing-order-not-as-intended");
@@ -1012,6 +1040,10 @@ fn run_group(run: &Run, g: &Group, perms: &mut BTreeSet<(usize, Vec<usize>)>, na
 				if *fd != d && sem.domain == Domain::WellFormed {
 					run.ctx.diff("order:answer-depends-on-listing-order", "two listing orders of the same well-formed directory are answered differently", || format!("{}\nother listing order: {:?}", rp(), forder.iter().map(|&i| g.files[i].name.clone()).collect::<Vec<_>>()));
 				}
+				if *fd != d && sem.domain == Domain::Ambiguous {
+					// the statement speaks of *the* path; where two paths disagree it does not say which one counts
+					st.outcome("ambiguous:answer-differs-from-first-listing-order");
+				}
 			},
 		}
 
@@ -1026,6 +1058,18 @@ fn run_group(run: &Run, g: &Group, perms: &mut BTreeSet<(usize, Vec<usize>)>, na
 					st.outcome("refused:cycle-through-root");
 				}
 				st.outcome(&format!("refused:{}", sem.domain.name()));
+				if sem.colliding_roots {
+					st.outcome("refused:two-roots-with-colliding-names");
+				}
+				if let Some(kind) = big_kind(&g.label) {
+					st.outcome(&format!("refused:large:{kind}"));
+				}
+				if g.label.contains("/pair:") {
+					st.outcome("pairs:refused");
+				}
+				if g.label.starts_with("wild-names-two-roots/") {
+					st.outcome("wild-names:second-root-refused");
+				}
 			}
 			continue;
 		}
@@ -1124,12 +1168,30 @@ fn run_group(run: &Run, g: &Group, perms: &mut BTreeSet<(usize, Vec<usize>)>, na
 			if !must.is_empty() && must.iter().all(|n| refused_nodes.contains(n) && !answered_nodes.contains(n)) {
 				st.outcome(&format!("refused:{}", sem.domain.name()));
 				st.outcome(&format!("refused-at-query:{}", sem.domain.name()));
+				if sem.colliding_roots {
+					st.outcome("refused:two-roots-with-colliding-names");
+				}
+				if let Some(kind) = big_kind(&g.label) {
+					st.outcome(&format!("refused:large:{kind}"));
+				}
+				if g.label.contains("/pair:") {
+					st.outcome("pairs:refused");
+				}
 				if sem.cycle_through_root {
 					st.outcome("refused:cycle-through-root");
 				}
 			}
 		} else {
 			st.outcome_n("nodes-resolved", sem.nodes.len() as u64);
+			if let Some(kind) = big_kind(&g.label) {
+				st.outcome(&format!("resolved:large:{kind}"));
+			}
+			if g.label.starts_with("wild-names/") {
+				st.outcome("wild-names:chains-resolved");
+				if sem.root.as_ref().is_some_and(|(r, _)| !r.chars().all(|c| c.is_ascii_alphanumeric() || c == '.')) {
+					st.outcome("wild-names:chains-with-an-unusual-root-name-resolved");
+				}
+			}
 			if g.diamond {
 				st.outcome("diamond-directories");
 			}
@@ -1313,7 +1375,7 @@ fn group(label: String, intended: Domain, mut files: Vec<FileSpec>, kind: Orders
 }
 
 /// every single mutation of a well-formed directory into a malformed one
-fn mutations(t: &Texts, k: usize, n: usize, shape: &Shape, lab: &[usize], split_mask: u32, all_bad_states: bool) -> Vec<(String, Domain, Vec<FileSpec>)> {
+fn mutations(t: &Texts, k: usize, n: usize, shape: &Shape, lab: &[usize], split_mask: u32, all_bad_states: bool, all_aliases: bool) -> Vec<(String, Domain, Vec<FileSpec>)> {
 	let base = well_formed_files(shape, lab, split_mask, true);
 	let name = |i: usize| vname(i, split_mask);
 	let fresh = |i: usize| if split_mask & 1 != 0 { format!("2.{i}~s2.{i}") } else { format!("2.{i}") };
@@ -1344,6 +1406,42 @@ fn mutations(t: &Texts, k: usize, n: usize, shape: &Shape, lab: &[usize], split_
 		out.push((format!("second-root-for-{v}"), Domain::TwoRoots, with(vec![FileSpec { name: format!("{}.tiny", name(v)), content: Content::Root { state: lab[v], extended: true } }])));
 	}
 	out.push(("second-root-new".into(), Domain::TwoRoots, with(vec![FileSpec { name: format!("{}.tiny", fresh(0)), content: Content::Root { state: lab[0], extended: true } }])));
+	// two roots whose names share a lookup key: a second (third) root file that names the root version, or
+	// another version, by a half of its name or by a split name one half of which is the other's name.
+	// (A scan that keeps "the root" per version instead of per file sees one root here; which file it then
+	// reads depends on the listing order.) Same content as the root file and different content.
+	{
+		let root_file = |n: String, state: usize| FileSpec { name: format!("{n}.tiny"), content: Content::Root { state, extended: true } };
+		let other = (lab[0] + 1) % k;
+		for v in 0..n.min(2) {
+			let vn = name(v);
+			let who = if v == 0 { "root".to_owned() } else { format!("version-{v}") };
+			let aliases: Vec<(&str, String)> = match vn.split_once('~') {
+				Some((c, s)) => vec![("client-half", c.to_owned()), ("server-half", s.to_owned()), ("same-client", format!("{c}~zz")), ("same-server", format!("zz~{s}")), ("halves-swapped", format!("{s}~{c}")), ("client-as-server", format!("zz~{c}")), ("server-as-client", format!("{s}~zz"))],
+				None => vec![("as-client-half", format!("{vn}~zz")), ("as-server-half", format!("zz~{vn}"))],
+			};
+			for (i, (what, alias)) in aliases.iter().enumerate() {
+				// the content of the files plays no part in the refusal: all aliases for the labelling with pairwise
+				// different states (which also gets the rich listing orders), the two halves for the others
+				if !all_aliases && (i >= 2 || v > 0) {
+					continue;
+				}
+				// the first alias also with the very content of the root file
+				let states: Vec<usize> = if i == 0 && v == 0 { vec![other, lab[0]] } else { vec![other] };
+				for st in states {
+					out.push((format!("second-root-colliding-name-{who}-{what}-state-{st}"), Domain::TwoRoots, with(vec![root_file(alias.clone(), st)])));
+				}
+			}
+			if !all_aliases {
+				continue;
+			}
+			if let Some((c, s)) = vn.split_once('~') {
+				out.push((format!("three-roots-colliding-names-{who}-both-halves"), Domain::TwoRoots, with(vec![root_file(c.to_owned(), other), root_file(s.to_owned(), (other + 1) % k)])));
+			} else {
+				out.push((format!("three-roots-colliding-names-{who}-both-sides"), Domain::TwoRoots, with(vec![root_file(format!("{vn}~zz"), other), root_file(format!("yy~{vn}"), (other + 1) % k)])));
+			}
+		}
+	}
 	// a cycle reachable from the root: one more edge a→b where b already reaches a (b = a: a loop)
 	for a in 0..n {
 		for b in 0..n {
@@ -1367,6 +1465,27 @@ fn mutations(t: &Texts, k: usize, n: usize, shape: &Shape, lab: &[usize], split_
 		f.push(FileSpec { name: format!("{}.tiny", fresh(0)), content: Content::Root { state: lab[0], extended: true } });
 		out.push(("root-disconnected".into(), Domain::Unreachable, f));
 	}
+	// two ways to a version that disagree: a version without children that has two parents, one of its edge
+	// files leads to another state than the other one (every single way is consistent)
+	if k >= 2 {
+		for v in 1..n {
+			let parents: Vec<usize> = shape.iter().filter(|(_, b)| *b == v).map(|(a, _)| *a).collect();
+			if parents.len() < 2 || shape.iter().any(|(a, _)| *a == v) {
+				continue;
+			}
+			for &p in &parents {
+				let x = (lab[v] + 1) % k;
+				let mut f = base.clone();
+				let fname = format!("{}#{}.tinydiff", name(p), name(v));
+				for e in f.iter_mut() {
+					if e.name == fname {
+						e.content = Content::Diff { from: lab[p], to: x };
+					}
+				}
+				out.push((format!("ways-disagree-at-{v}-through-{p}"), Domain::Ambiguous, f));
+			}
+		}
+	}
 	// a diff whose stated old values do not match the parent's state
 	for (a, b) in shape {
 		for w in 0..k {
@@ -1384,6 +1503,45 @@ fn mutations(t: &Texts, k: usize, n: usize, shape: &Shape, lab: &[usize], split_
 			if !all_bad_states {
 				break;
 			}
+		}
+	}
+	out
+}
+
+/// Two single mutations of different classes in one directory (second-order combinations: a loop beside an
+/// unreachable pair, a second root in a directory with a loop, no root and a diff that does not fit, …). Per class
+/// the first, the middle and the last of its single mutations. The class of the pair is the reference reading's.
+fn mutation_pairs(t: &Texts, k: usize, n: usize, shape: &Shape, lab: &[usize], split_mask: u32) -> Vec<(String, Domain, Vec<FileSpec>)> {
+	let base = well_formed_files(shape, lab, split_mask, true);
+	let singles = mutations(t, k, n, shape, lab, split_mask, false, true);
+	let mut picked: Vec<&(String, Domain, Vec<FileSpec>)> = Vec::new();
+	for dom in [Domain::NoRoot, Domain::TwoRoots, Domain::Cycle, Domain::Unreachable, Domain::Ambiguous, Domain::BadDiff] {
+		let of: Vec<&(String, Domain, Vec<FileSpec>)> = singles.iter().filter(|m| m.1 == dom).collect();
+		let mut idx: Vec<usize> = if of.is_empty() { vec![] } else { vec![0, of.len() / 2, of.len() - 1] };
+		idx.dedup();
+		picked.extend(idx.into_iter().map(|i| of[i]));
+	}
+	let mut out = Vec::new();
+	for (i, a) in picked.iter().enumerate() {
+		for b in picked.iter().skip(i + 1) {
+			if a.1 == b.1 {
+				continue;
+			}
+			// a's files, then what b changed against the unchanged directory (b never removes a file: the
+			// only mutation that does, the removed root, is the first of the list)
+			let mut files = a.2.clone();
+			for f in &b.2 {
+				if base.contains(f) {
+					continue;
+				}
+				match files.iter_mut().find(|x| x.name == f.name) {
+					Some(x) => x.content = f.content.clone(),
+					None => files.push(f.clone()),
+				}
+			}
+			files.sort();
+			let dom = judge(t, &files).domain;
+			out.push((format!("pair:{}+{}", a.0, b.0), dom, files));
 		}
 	}
 	out
@@ -1456,6 +1614,122 @@ fn outside_domain(shape: &Shape, lab: &[usize], split_mask: u32) -> Vec<(String,
 	out
 }
 
+/// the kind of a large malformed directory, from the label of its group
+fn big_kind(label: &str) -> Option<&str> {
+	label.strip_prefix("large/")
+}
+
+/// the pool state of the `i`-th version of a large shape
+fn big_state(i: usize, k: usize) -> usize {
+	i % k
+}
+
+/// Large malformed (and two well-formed control) directories: the bounded shape enumeration stops at five versions,
+/// a check that is right on small graphs only (a step budget, a depth limit, a walk that gives up) needs long ones.
+/// Chains of `len` edges, a fan of `len` children, a ladder of `rungs` diamonds; version `i` carries pool state i mod k.
+fn big_groups(k: usize, len: usize, fan_len: usize, rungs: usize) -> Vec<Group> {
+	let d = |a: &str, b: &str, ia: usize, ib: usize| FileSpec { name: format!("{a}#{b}.tinydiff"), content: Content::Diff { from: big_state(ia, k), to: big_state(ib, k) } };
+	let r = |a: &str, i: usize| FileSpec { name: format!("{a}.tiny"), content: Content::Root { state: big_state(i, k), extended: true } };
+	// every third version of the chain is split
+	let cn = |i: usize| if i % 3 == 1 { format!("c{i}~sc{i}") } else { format!("c{i}") };
+	let chain = |from: usize, to: usize| -> Vec<FileSpec> { (from..to).map(|i| d(&cn(i), &cn(i + 1), i, i + 1)).collect() };
+	let mut out: Vec<(String, Domain, Vec<FileSpec>, bool)> = Vec::new();
+	let mid = len / 2;
+	let with_chain = |extra: Vec<FileSpec>, root: bool| -> Vec<FileSpec> {
+		let mut f = chain(0, len);
+		if root {
+			f.push(r(&cn(0), 0));
+		}
+		f.extend(extra);
+		f
+	};
+	out.push(("chain:control".into(), Domain::WellFormed, with_chain(vec![], true), false));
+	out.push(("chain:no-root".into(), Domain::NoRoot, with_chain(vec![], false), false));
+	out.push(("chain:second-root-at-the-end".into(), Domain::TwoRoots, with_chain(vec![r(&cn(len), len)], true), false));
+	out.push(("chain:second-root-in-the-middle".into(), Domain::TwoRoots, with_chain(vec![r(&cn(mid), mid)], true), false));
+	out.push(("chain:cycle-end-to-root".into(), Domain::Cycle, with_chain(vec![d(&cn(len), &cn(0), len, 0)], true), false));
+	out.push(("chain:cycle-end-to-middle".into(), Domain::Cycle, with_chain(vec![d(&cn(len), &cn(mid), len, mid)], true), false));
+	out.push(("chain:cycle-end-to-its-parent".into(), Domain::Cycle, with_chain(vec![d(&cn(len), &cn(len - 1), len, len - 1)], true), false));
+	out.push(("chain:loop-at-the-end".into(), Domain::Cycle, with_chain(vec![d(&cn(len), &cn(len), len, len)], true), false));
+	out.push(("chain:loop-in-the-middle".into(), Domain::Cycle, with_chain(vec![d(&cn(mid), &cn(mid), mid, mid)], true), false));
+	{
+		// the chain is cut in the middle: the second half has no way from the root
+		let mut f = chain(0, mid);
+		f.extend(chain(mid + 1, len));
+		f.push(r(&cn(0), 0));
+		out.push(("chain:unreachable-second-half".into(), Domain::Unreachable, f, false));
+	}
+	out.push(("chain:unreachable-parent-of-the-end".into(), Domain::Unreachable, with_chain(vec![d("u0", &cn(len), len + 1, len)], true), false));
+	out.push(("chain:unreachable-cycle-beside".into(), Domain::Unreachable, with_chain(vec![d("u0", "u1", 0, 1), d("u1", "u2~su2", 1, 2), d("u2~su2", "u0", 2, 0)], true), false));
+	{
+		// the root is the last version of the chain: nothing is below it
+		let mut f = chain(0, len);
+		f.push(r(&cn(len), len));
+		out.push(("chain:root-at-the-end".into(), Domain::Unreachable, f, false));
+	}
+	// a fan whose children point at each other in a ring: every version of the ring is reached first from the root
+	let fname = |i: usize| if i % 3 == 2 { format!("f{i}~sf{i}") } else { format!("f{i}") };
+	let fan = || -> Vec<FileSpec> {
+		let mut f: Vec<FileSpec> = (1..=fan_len).map(|i| d("f0", &fname(i), 0, i)).collect();
+		f.push(r("f0", 0));
+		f
+	};
+	{
+		let mut f = fan();
+		f.extend((1..=fan_len).map(|i| d(&fname(i), &fname(i % fan_len + 1), i, i % fan_len + 1)));
+		out.push(("fan:ring-through-all-children".into(), Domain::Cycle, f, true));
+		let mut f = fan();
+		f.push(d(&fname(fan_len), &fname(fan_len - 1), fan_len, fan_len - 1));
+		f.push(d(&fname(fan_len - 1), &fname(fan_len), fan_len - 1, fan_len));
+		out.push(("fan:two-children-point-at-each-other".into(), Domain::Cycle, f, true));
+		let mut f = fan();
+		f.extend((1..fan_len).map(|i| d(&fname(i), &fname(i + 1), i, i + 1)));
+		out.push(("fan:control-with-skip-edges".into(), Domain::WellFormed, f, true));
+	}
+	// a ladder of diamonds with an edge from the top back to the bottom / into a side
+	{
+		// L(i) carries state 3i, its two children a(i) and b(i) the states 3i+1 and 3i+2
+		let l = |i: usize| format!("L{i}");
+		let ladder = || -> Vec<FileSpec> {
+			let mut f = vec![r("L0", 0)];
+			for i in 0..rungs {
+				let (a, b) = (format!("a{i}~sa{i}"), format!("b{i}"));
+				f.extend([d(&l(i), &a, 3 * i, 3 * i + 1), d(&l(i), &b, 3 * i, 3 * i + 2), d(&a, &l(i + 1), 3 * i + 1, 3 * i + 3), d(&b, &l(i + 1), 3 * i + 2, 3 * i + 3)]);
+			}
+			f
+		};
+		out.push(("ladder:control".into(), Domain::WellFormed, ladder(), true));
+		let mut f = ladder();
+		f.push(d(&l(rungs), "L0", 3 * rungs, 0));
+		out.push(("ladder:cycle-top-to-bottom".into(), Domain::Cycle, f, true));
+		let mut f = ladder();
+		f.push(d(&l(rungs), &format!("b{}", rungs - 1), 3 * rungs, 3 * (rungs - 1) + 2));
+		out.push(("ladder:cycle-top-to-its-parent".into(), Domain::Cycle, f, true));
+		let mut f = ladder();
+		f.push(r(&l(rungs), 3 * rungs));
+		out.push(("ladder:second-root-at-the-top".into(), Domain::TwoRoots, f, true));
+	}
+	out.into_iter().map(|(name, dom, files, diamond)| group(format!("large/{name}"), dom, files, Orders::Basic, diamond)).collect()
+}
+
+/// A chain through all the names of the wild list (as they occur in the shortcut table and the fixture, and with
+/// characters a pattern written for `1.2.3` does not expect), starting at the `rot`-th: every name is the root once,
+/// and a parent and a child in every directory. Plus the same with a second root file for the middle of the chain.
+fn wild_groups(k: usize, rot: usize) -> Vec<Group> {
+	let names: Vec<&str> = (0..histories::WILD_NAMES.len()).map(|i| histories::WILD_NAMES[(i + rot) % histories::WILD_NAMES.len()]).collect();
+	let mut files = vec![FileSpec { name: format!("{}.tiny", names[0]), content: Content::Root { state: big_state(rot, k), extended: rot % 2 == 0 } }];
+	for i in 0..names.len() - 1 {
+		files.push(FileSpec { name: format!("{}#{}.tinydiff", names[i], names[i + 1]), content: Content::Diff { from: big_state(rot + i, k), to: big_state(rot + i + 1, k) } });
+	}
+	let mut two = files.clone();
+	let mid = names.len() / 2;
+	two.push(FileSpec { name: format!("{}.tiny", names[mid]), content: Content::Root { state: big_state(rot + mid, k), extended: true } });
+	vec![
+		group(format!("wild-names/root={:?}", names[0]), Domain::WellFormed, files, Orders::Basic, false),
+		group(format!("wild-names-two-roots/root={:?}/second={:?}", names[0], names[mid]), Domain::TwoRoots, two, Orders::Basic, false),
+	]
+}
+
 /// One unit of work: expands to a handful of groups (kept lazy, the thorough tier has millions of directories).
 #[derive(Clone, Debug)]
 enum Item {
@@ -1470,6 +1744,12 @@ enum Item {
 	/// the light form for the shapes beyond the bound of the full treatment: the rotation labellings with a few
 	/// namings (well-formed) and every single mutation of the pairwise-different labelling under two namings
 	Light { n: usize, si: usize },
+	/// pairs of single mutations of different classes, the labelling with pairwise different states
+	Pairs { n: usize, si: usize, mask: u32 },
+	/// large malformed directories (long chain, wide fan, ladder of diamonds) and their well-formed controls
+	Large,
+	/// the chain through the names of the wild list that starts at the `rot`-th
+	Wild { rot: usize },
 }
 
 struct ShapeInfo {
@@ -1490,6 +1770,8 @@ struct Plan {
 	shapes: Vec<ShapeInfo>,
 	items: Vec<Item>,
 	bounds: Value,
+	/// edges of the long chain, children of the wide fan, diamonds of the ladder
+	large: (usize, usize, usize),
 }
 
 fn dedup_u32(v: Vec<u32>) -> Vec<u32> {
@@ -1553,10 +1835,21 @@ fn plan(tier: vcore::Tier) -> Plan {
 			for &mask in &few_masks {
 				items.push(Item::Outside { n, si, mask });
 			}
+			if n <= n_max {
+				for mask in dedup_u32(vec![0, all_bits]) {
+					items.push(Item::Pairs { n, si, mask });
+				}
+			}
 		}
 		per_n.push(json!({"versions": n, "shapes_existing": all.len(), "shapes_explored": used, "shapes_explored_in_the_light_form": used_light}));
 	}
+	let large = tier.pick((64, 48, 6), (256, 96, 8));
+	items.push(Item::Large);
+	items.extend((0..histories::WILD_NAMES.len()).map(|rot| Item::Wild { rot }));
 	let bounds = json!({
+		"large_malformed_shapes": {"chain_edges": large.0, "fan_children": large.1, "ladder_diamonds": large.2, "states": "version i carries pool state i mod k", "directories": "chain: well-formed control, no root, second root (end, middle), cycle (end to root / middle / its parent, loop at the end / in the middle), unreachable (second half cut off, extra parent of the end, cycle beside, root at the end); fan: ring through all children, two children pointing at each other, control with skip edges; ladder: control, cycle from the top to the bottom / to its parent, second root at the top; three listing orders each"},
+		"wild_name_chains": {"names": histories::WILD_NAMES.len(), "directories": "per rotation of the list one chain through all names (every name is the root once, a parent and a child in every directory; root printed extended / contracted alternating) and the same with a second root file for the version in the middle; three listing orders each"},
+		"malformed_pairs": "every shape up to versions_max_all_shapes, the labelling with pairwise different states, no version / every version split: every two single mutations of different classes, per class the first, the middle and the last of its list; three listing orders; the class of the pair is the reference reading's (no root > two roots > cycle > unreachable > ways disagree / diff does not fit)",
 		"versions_max_all_shapes": n_max,
 		"versions_max_tie_diamond_shapes": 4,
 		"versions_max_light_form": n_light,
@@ -1571,12 +1864,14 @@ fn plan(tier: vcore::Tier) -> Plan {
 		"malformed_mutations": ["root file removed", "second root for an existing / a new version", "every extra edge closing a cycle (incl. loops and edges into the root)", "unreachable pair / parent of each version / cycle / root renamed away", "each edge replaced by a diff from a different state that the reference apply refuses (quick: first such state, thorough: all)"],
 		"unknown_names_asked": UNKNOWN_NAMES,
 	});
-	Plan { n_max, k, quick, shapes: infos, items, bounds }
+	Plan { n_max, k, quick, shapes: infos, items, bounds, large }
 }
 
 fn expand(t: &Texts, plan: &Plan, item: &Item) -> Vec<Group> {
 	let (n, si) = match item {
-		Item::WellFormed { n, si, .. } | Item::Rich { n, si, .. } | Item::Malformed { n, si, .. } | Item::Outside { n, si, .. } | Item::Light { n, si } => (*n, *si),
+		Item::WellFormed { n, si, .. } | Item::Rich { n, si, .. } | Item::Malformed { n, si, .. } | Item::Outside { n, si, .. } | Item::Light { n, si } | Item::Pairs { n, si, .. } => (*n, *si),
+		Item::Large => return big_groups(plan.k, plan.large.0, plan.large.1, plan.large.2),
+		Item::Wild { rot } => return wild_groups(plan.k, *rot),
 	};
 	let info = plan.shapes.iter().find(|s| s.n == n && s.si == si).unwrap_or_else(|| fail("plan"));
 	let shape = &info.shape;
@@ -1602,7 +1897,7 @@ fn expand(t: &Texts, plan: &Plan, item: &Item) -> Vec<Group> {
 		},
 		Item::Malformed { lab, mask, .. } => {
 			let kind = if lab == &distinct_lab(n, k) { Orders::Rich } else { Orders::Basic };
-			for (mname, dom, files) in mutations(t, k, n, shape, lab, *mask, !plan.quick) {
+			for (mname, dom, files) in mutations(t, k, n, shape, lab, *mask, !plan.quick, lab == &distinct_lab(n, k)) {
 				groups.push(group(label(&format!("lab={lab:?}/split={mask:04b}/{mname}")), dom, files, kind, info.diamond));
 			}
 		},
@@ -1615,9 +1910,16 @@ fn expand(t: &Texts, plan: &Plan, item: &Item) -> Vec<Group> {
 			let lab = distinct_lab(n, k);
 			let all_bits = (1u32 << n) - 1;
 			for mask in [0, all_bits] {
-				for (mname, dom, files) in mutations(t, k, n, shape, &lab, mask, false) {
+				for (mname, dom, files) in mutations(t, k, n, shape, &lab, mask, false, true) {
 					groups.push(group(label(&format!("lab={lab:?}/split={mask:05b}/{mname}/light")), dom, files, Orders::Basic, info.diamond));
 				}
+			}
+		},
+		Item::Large | Item::Wild { .. } => {},
+		Item::Pairs { mask, .. } => {
+			let lab = distinct_lab(n, k);
+			for (mname, dom, files) in mutation_pairs(t, k, n, shape, &lab, *mask) {
+				groups.push(group(label(&format!("lab={lab:?}/split={mask:04b}/{mname}")), dom, files, Orders::Basic, info.diamond));
 			}
 		},
 		Item::Outside { mask, .. } => {
@@ -1673,6 +1975,9 @@ fn main() {
 		Item::Malformed { .. } => 2,
 		Item::Outside { .. } => 3,
 		Item::Light { .. } => 3,
+		Item::Large => 0,
+		Item::Pairs { .. } => 2,
+		Item::Wild { .. } => 3,
 		Item::WellFormed { .. } => 4,
 	});
 	let mut acc = items.par_iter().with_max_len(2).fold(Acc::default, |mut acc, item| {
@@ -1732,6 +2037,23 @@ fn main() {
 	ctx.floor("directories outside the statement's domain explored for panics", 10, st.get("directories:outside-domain"));
 	ctx.floor("names derived from the directory that no file defines, refused", 1000, st.get("refused:unknown-version-derived"));
 	ctx.floor("shapes explored in the light form", 1, plan.items.iter().filter(|i| matches!(i, Item::Light { .. })).count() as u64);
+	ctx.floor("two-roots directories whose root files name one version twice (names sharing a lookup key), refused", 100, st.get("refused:two-roots-with-colliding-names"));
+	for g in big_groups(plan.k, plan.large.0, plan.large.1, plan.large.2) {
+		let kind = big_kind(&g.label).unwrap_or("?").to_owned();
+		if g.intended == Domain::WellFormed {
+			ctx.floor(&format!("large well-formed control resolved: {kind}"), 1, st.get(&format!("resolved:large:{kind}")));
+		} else {
+			ctx.floor(&format!("large malformed directory refused: {kind}"), 1, st.get(&format!("refused:large:{kind}")));
+		}
+	}
+	ctx.floor("chains through the names of the wild list resolved (every name the root once)", histories::WILD_NAMES.len() as u64, st.get("wild-names:chains-resolved"));
+	ctx.floor("chains through the wild list whose root has a name with unusual characters resolved", 10, st.get("wild-names:chains-with-an-unusual-root-name-resolved"));
+	ctx.floor("chains through the wild list with a second root file refused", histories::WILD_NAMES.len() as u64, st.get("wild-names:second-root-refused"));
+	ctx.floor("versions with two disagreeing ways answered with the fold of one of them", 1, st.get("ambiguous:answered-with-the-fold-of-one-path"));
+	for class in ["no-root", "two-roots", "cycle", "unreachable"] {
+		ctx.floor(&format!("directories with two mutations of different classes, read as {class}"), 1, st.get(&format!("pairs:directories:{class}")));
+	}
+	ctx.floor("directories with two mutations of different classes refused", 100, st.get("pairs:refused"));
 	for (name, required, measured) in &hist.floors {
 		ctx.floor(name, *required, *measured);
 	}
